@@ -149,6 +149,9 @@ func NewHB(c *Ctx, base crashfs.Image, cfg Config, keys [][]byte, admissible []S
 	if !ok {
 		return nil, fmt.Errorf("state after open is not admissible: %s", st.Diff(admissible[0], 4))
 	}
+	if d := CheckSegmentCounters(db, env); d != "" {
+		return nil, fmt.Errorf("after open: %s", d)
+	}
 	hb.Ref = st
 	h.SyncStates = append(h.SyncStates, st.Clone())
 	h.Iv = append(h.Iv, Interval{Desc: "open", Kind: "open", Start: start, End: env.Crash.LogLen(), Adm: admissible, SyncIdx: 0, SyncAt: -1})
@@ -325,6 +328,11 @@ func (hb *HB) Open() {
 	}, nil)
 	if Recoveries() != rec {
 		hb.fail("open after clean close ran recovery")
+	}
+	if hb.DB != nil && hb.Failed == "" {
+		if d := CheckSegmentCounters(hb.DB, hb.Env); d != "" {
+			hb.fail("after a clean restart: %s", d)
+		}
 	}
 	hb.live("open")
 }
